@@ -144,3 +144,20 @@ void h_child_body(void)
   VERIF_CANARY;
 }
 #endif
+
+/* ------------------------------------------------------------ ShapePair (libcola/shapepair.cpp): key of the non-overlap exemption set */
+#if defined(JOB_pair_less)
+int w_pair_less(unsigned a1, unsigned a2, unsigned b1, unsigned b2);
+void h_pair_less(void)
+{
+  unsigned a1, a2, b1, b2;
+  __CPROVER_assume(a1 != a2 && b1 != b2 && a1 < 65536 && a2 < 65536 && b1 < 65536 && b2 < 65536);
+  unsigned alo = a1 < a2 ? a1 : a2, ahi = a1 < a2 ? a2 : a1, blo = b1 < b2 ? b1 : b2, bhi = b1 < b2 ? b2 : b1;
+  int ab = w_pair_less(a1, a2, b1, b2), ba = w_pair_less(b1, b2, a1, a2);
+  /* the order is the lexicographic order on (smaller index, larger index) -- in particular */
+  __CPROVER_assert((ab != 0) == (alo < blo || (alo == blo && ahi < bhi)), "SPEC ShapePair::operator< is the lexicographic order on (smaller index, larger index)");
+  /* ... two pairs are equivalent keys (neither is less) exactly when they are the same unordered pair */
+  __CPROVER_assert((!ab && !ba) == (alo == blo && ahi == bhi), "SPEC two pairs are the same set key iff they are the same unordered pair");
+  VERIF_CANARY;
+}
+#endif
